@@ -94,6 +94,23 @@ def r1234_writer(ctx, chk):
             if all((not has_writes(l)) or (optional and later) for l in after):
                 loops = main
     if len(loops) != 1:
+        # the loop that writes the blocks runs over a SELECTION of the entries (`solved = {n: g for n, g in results.items() if ..}`):
+        # the entries that fail the test get no block
+        nested = {i for l in sx.loops.values() for i in l.inner}
+        n_writes = lambda l: sum(1 for e in l.effects if e[1] == "call" and e[2][0] == "mcall" and e[2][2] in ("write", "writelines"))
+        cands = sorted([l for l in loops if l.id not in nested and n_writes(l) >= 5], key=n_writes, reverse=True)
+        if cands:
+            B = cands[0]
+            src_ = B.source
+            if src_[0] == "mcall" and src_[2] == "items" and not src_[3]:
+                src_ = src_[1]
+            if src_[0] == "compr" and src_[1] in sx.loops:
+                S_ = sx.loops[src_[1]]
+                if S_.source == ("mcall", res_param, "items", (), ()) and S_.filters:
+                    chk.violation("C16.4", f.where(B.node), "the blocks are written for the entries that pass `%s` only: an entry that fails the test (a game whose solve raised an error has a message of its "
+                                  "own) gets no block and its message is lost from the report" % show(S_.filters[0])[:80], expected="one block per entry of %s" % f.params[0],
+                                  found=show(S_.filters[0])[:100], construct="save_results iteration filtered")
+                    return
         chk.undecided("C16.4", f.where(), "%d loops in save_results_to_file" % len(loops))
         return
     L = loops[0]
@@ -263,7 +280,14 @@ def r1234_writer(ctx, chk):
         path, mode = file_obj[2][0], (file_obj[2][1] if len(file_obj[2]) > 1 else C("r"))
         np = norm_path(path, fname_param)
         want = ("outputs", ("cutdot", ("basename", ("param",))), ".txt")
-        if np is None:
+        strips = [t for t in C02._sub(path) if t[0] == "mcall" and t[2] in ("rstrip", "lstrip", "strip") and t[3] and is_const(t[3][0]) and isinstance(t[3][0][1], str)
+                  and len(t[3][0][1]) > 1 and t[3][0][1].startswith(".")]
+        if np is None and strips:
+            t_ = strips[0]
+            chk.violation("C16.4", f.where(), "the report name is computed with `.%s(%r)`, which strips CHARACTERS, not a suffix: a stem that ends in one of %s loses those letters too "
+                          "('..._copy.py' -> '..._co'), so the report is not named after the input file" % (t_[2], t_[3][0][1], sorted(set(t_[3][0][1]))),
+                          expected="outputs/<input stem>.txt", found=show(t_)[:100], construct="save_results path strips characters")
+        elif np is None:
             chk.undecided("C16.4", f.where(), "report path expression `%s` not recognised" % show(path)[:140])
         elif np == want and mode == C("w"):
             chk.ok("C16.4", f.where(), "report path = outputs/<base name of the input file, cut at its first dot>.txt, opened for writing")
@@ -520,5 +544,9 @@ def run(ctx, chk):
     r7_no_glued_chunks(ctx, chk)
     r8_results_untouched(ctx, chk)
     C11.r4_reader(ctx, chk, "C16.5")
+    # "exactly what was computed": the report has a block for both runs of every game only if run_games makes an entry for both
+    rec12 = shared.Recorder()
+    C12.r1_keys(ctx, rec12, "C16.pre:C12.1")
+    rec12.replay(chk, only=("ok", "violation"))       # (a driver in another shape is C12's to decide)
     chk.require_instances("C16.1", 14)
     chk.require_instances("C16.4", 3)
